@@ -43,6 +43,16 @@ func (tr *fnTrans) call(in *ssa.Call) {
 	case *ssa.Function:
 		key := fnKey(f)
 		c := tr.v.contracts[key]
+		if c == nil && len(cm.Args) > 0 {
+			// contract specialised by the dynamic type of an interface argument: key[pkg.Type]
+			if mi, ok := cm.Args[0].(*ssa.MakeInterface); ok {
+				k2 := key + "[" + shortType(mi.X.Type()) + "]"
+				if c2 := tr.v.contracts[k2]; c2 != nil {
+					key, c = k2, c2
+					args[0] = tr.val(mi.X)
+				}
+			}
+		}
 		if c == nil {
 			tr.errorf("no contract for callee %s (called in %s)", key, tr.key)
 			tr.havocResult(in)
@@ -148,7 +158,7 @@ func (tr *fnTrans) applyContract(in *ssa.Call, c *Contract, key string, args []T
 			tr.errorf("%s: requires of %s: %s: %v", tr.key, key, r.Src, err)
 			continue
 		}
-		tr.oblige("pre", fmt.Sprintf("pre[%s#%d%s]", key, k, labelOr(r.Label, i)), t.S, r.Src, in.Pos())
+		tr.oblige("pre", fmt.Sprintf("pre[%s#%d:%s]", key, k, labelOr(r.Label, i)), t.S, r.Src, in.Pos())
 		tr.hyp(implies(in0, t.S))
 	}
 	// results
@@ -345,6 +355,8 @@ func (tr *fnTrans) appendOp(in *ssa.Call, s, xs Term) {
 			ln, at, A1, r.S, at, A, s.S, at, A1, r.S, at, A, s.S)))
 		tr.hyp(implies(in0, fmt.Sprintf("(forall ((j!a Int)) (! (=> (and (<= 0 j!a) (< j!a %s)) (= (%s %s %s (+ %s j!a)) (%s %s %s j!a))) :pattern ((%s %s %s j!a))))",
 			nn, at, A1, r.S, ln, at, A, xs.S, at, A, xs.S)))
+		tr.hyp(implies(in0, fmt.Sprintf("(forall ((k!a Int)) (! (=> (and (<= %s k!a) (< k!a %s)) (= (%s %s %s k!a) (%s %s %s (- k!a %s)))) :pattern ((%s %s %s k!a))))",
+			ln, nl, at, A1, r.S, at, A, xs.S, ln, at, A1, r.S)))
 	}
 	tr.hyp(implies(and(in0, inplace), fmt.Sprintf("(forall ((k!a Int)) (! (=> (or (< k!a (+ %s %s)) (>= k!a (+ %s %s))) (= (select (select %s %s) k!a) (select (select %s %s) k!a))) :pattern ((select (select %s %s) k!a))))",
 		slOff(s.S), ln, slOff(s.S), nl, A1, slArr(s.S), A, slArr(s.S), A1, slArr(s.S))))
